@@ -291,18 +291,21 @@ inline WireFrames decodeAll(std::string_view rx)
 
 // ---------------------------------------------------------------- client role (toward a server)
 /// opening handshake as a client; on success conn.rx holds whatever followed the 101 response
-inline bool clientHandshake(RawConn &c, const std::string &key, std::string &why, std::string *responseHead = nullptr)
+inline bool clientHandshake(RawConn &c, const std::string &key, std::string &why, std::string *responseHead = nullptr, bool *timedOut = nullptr)
 {
+  if (timedOut) *timedOut = false;
   std::string req = "GET /ws HTTP/1.1\r\nHost: 127.0.0.1\r\nUpgrade: websocket\r\nConnection: Upgrade\r\nSec-WebSocket-Key: " + key +
                     "\r\nSec-WebSocket-Version: 13\r\n\r\n";
   if (!c.writeAll(req.data(), req.size()))
   {
     why = "cannot send the upgrade request";
+    if (timedOut) *timedOut = true; // environment, not a wrong answer
     return false;
   }
-  if (!c.readUntil([&] { return c.rx.find("\r\n\r\n") != std::string::npos; }, 20.0))
+  if (!c.readUntil([&] { return c.rx.find("\r\n\r\n") != std::string::npos; }, 60.0))
   {
-    why = "no upgrade response within 20 s";
+    why = c.eof ? "connection closed before an upgrade response arrived" : "no upgrade response within 60 s";
+    if (timedOut) *timedOut = true;
     return false;
   }
   std::size_t he = c.rx.find("\r\n\r\n");
